@@ -89,6 +89,12 @@ FromScratchFails(run, d, s) ==
   Bad(d.pat = run.pat, "quiescent_snapshot_has_stale_pattern")
   \cup Bad(d.count = Cardinality(all), "quiescent_item_count_differs_from_injected")
   \cup Bad(got = want, "quiescent_matches_differ_from_scratch")
+  \* "same order": the documented order is a strict total order on real matches (ParSortProof), so equal sets listed in
+  \* that order are equal sequences; for the empty pattern the order is insertion order
+  \cup (LET m == d.matches  n == Len(m) IN
+        IF d.pat < 0 \/ \E k \in 1..n : m[k][3] < 0 \/ m[k][1] < 0 \/ ~Known(run, m[k][3]) THEN {}
+        ELSE Bad(\A k \in 1..n - 1 : IF d.pat = 0 THEN m[k][1] < m[k+1][1] ELSE Before(run, m[k], m[k+1]),
+                 "quiescent_order_differs_from_scratch"))
 
 \* ---- C12 ------------------------------------------------------------------------------------------------
 RestartFails(run, d, s) ==
